@@ -22,7 +22,7 @@ from ..oracle import g711, sphere_writer as SW
 
 OPTIMIZED_SHARDS = 2  # shards run once more in an interpreter started with -O (vf/run.py)
 LEVEL = "exploration"
-TECHNIQUE = "runtime monitor on read_signal(sph) against files written by an independent SPHERE writer and a bit-field G.711 model; exhaustive over the 2x256 companding codes; poison-fill sanitizer"
+TECHNIQUE = "runtime monitor on read_signal(sph) against files written by an independent SPHERE writer and a bit-field G.711 model; exhaustive over the 2x256 companding codes; poison-fill sanitizer; ambient-settings monitor (stateless calls repeated under -W error and np.errstate raise)"
 RULE = (
     "files: seeded (channels 1-8, sample counts {1, floor(16384/(c*b)) -1..+1, 2x, 3x, 5x that, random up to 40000}, coding pcm16 LE/BE / ulaw / alaw, header "
     "sizes 1024/2048/4096 with extra fields, requested dtype None / 1-byte / int32 / float64, path or stream, truncation at a frame boundary or inside a frame); "
